@@ -124,6 +124,9 @@ class Models(object):
         return None
 
     def sym_key(self, it, k):
+        from .values import SymKey
+        if isinstance(k, (SStr, SNum)):
+            return SymKey(k)
         raise Unsupported('symbolic dict key %r' % (k,))
 
     def iterate(self, it, v):
